@@ -453,23 +453,22 @@ pub fn cli(ctx: &Ctx) -> Stats {
             }));
             st.class("output is a named pipe");
         }
-        // one case in sixteen: the *input* is a named pipe fed by a slow producer that stalls for 400 ms twice (a
-        // decompressor or a network stream upstream): a pause is not the end of the input
+        // one case in eight: the *input* is a named pipe fed by a producer that stalls for 400 ms twice (a decompressor
+        // or a network stream upstream): a pause is not the end of the input.  Named-pipe input is not a documented
+        // feature, so a control run without stalls comes first; only a build that handles the pipe itself is judged.
         let in_fifo = idx % 16 == 9 || idx % 16 == 12;
-        let mut feeder = None;
-        let args = if in_fifo {
-            let fpath = sc.path("stream.fa");
+        let fpath = sc.path("stream.fa");
+        let feed = |stall_ms: u64| -> Option<std::thread::JoinHandle<()>> {
             let _ = std::fs::remove_file(&fpath);
             let c = std::ffi::CString::new(fpath.clone()).unwrap();
             if unsafe { libc::mkfifo(c.as_ptr(), 0o644) } != 0 {
-                st.inconclusive("mkfifo failed".into());
-                return;
+                return None;
             }
             let data = ser::to_fasta(&recs, &SerOpts::plain());
             let fp = fpath.clone();
-            feeder = Some(std::thread::spawn(move || {
+            Some(std::thread::spawn(move || {
                 use std::io::Write;
-                // open blocks until the tool opens the pipe for reading; give up after the tool is gone (open O_NONBLOCK loop)
+                // the open succeeds once the tool has opened the pipe for reading; give up after 20 s
                 let c = std::ffi::CString::new(fp).unwrap();
                 let t0 = std::time::Instant::now();
                 let fd = loop {
@@ -491,21 +490,45 @@ pub fn cli(ctx: &Ctx) -> Stats {
                 let cut1 = data.len() / 3;
                 let cut2 = 2 * data.len() / 3;
                 let _ = f.write_all(&data[..cut1]);
-                std::thread::sleep(std::time::Duration::from_millis(400));
+                std::thread::sleep(std::time::Duration::from_millis(stall_ms));
                 let _ = f.write_all(&data[cut1..cut2]);
-                std::thread::sleep(std::time::Duration::from_millis(400));
+                std::thread::sleep(std::time::Duration::from_millis(stall_ms));
                 let _ = f.write_all(&data[cut2..]);
-            }));
+            }))
+        };
+        let fifo_args: Vec<String> = args.iter().map(|a| if a == &inp { fpath.clone() } else { a.clone() }).collect();
+        let mut use_fifo_input = false;
+        if in_fifo && !fifo {
+            // control: the same pipe without stalls
+            if let Some(h) = feed(0) {
+                let r0 = run_cli(ctx, &fifo_args, None, &CliLimits::default());
+                let _ = h.join();
+                let d0 = std::fs::read(&outp).unwrap_or_default();
+                let ok0 = r0.ok() && match mode {
+                    MinMode::S2m => check_s2m(&d0, &recs, w, m).is_ok(),
+                    MinMode::M2s => check_m2s(&d0, &recs, w, m).is_ok(),
+                };
+                let _ = std::fs::remove_file(&outp);
+                if ok0 {
+                    use_fifo_input = true;
+                } else {
+                    st.class("named-pipe input not handled by this build (not judged)");
+                }
+            }
+        }
+        let mut feeder = None;
+        let args = if use_fifo_input {
+            feeder = feed(400);
             st.class("input is a named pipe with a stalling producer");
-            args.iter().map(|a| if a == &inp { fpath.clone() } else { a.clone() }).collect::<Vec<String>>()
+            fifo_args.clone()
         } else {
             args
         };
         let res = run_cli(ctx, &args, None, &CliLimits::default());
         if let Some(h) = feeder {
             let _ = h.join();
-            let _ = std::fs::remove_file(sc.path("stream.fa"));
         }
+        let _ = std::fs::remove_file(&fpath);
         fifo_done.store(true, std::sync::atomic::Ordering::Relaxed);
         let fifo_data = fifo_reader.map(|h| h.join().unwrap_or_default());
         if fifo {
